@@ -223,6 +223,28 @@ fn backend<B: Backend>(opts: &Opts, rep: &mut Report) {
             }
         }
 
+        // --- dense sweep: every message length 0..=1100 (and every footer / assertion length 0..=300) on
+        //     one key, so that a fault confined to a narrow window of sizes cannot hide between grid points
+        let kp_dense = &keys[1].1;
+        let step = if slow { 5 } else { 1 };
+        for len in (0..=1100usize).step_by(step) {
+            idx += 1;
+            if !opts.mine(idx) {
+                continue;
+            }
+            let mut r = Rng::derive(opts.seed, &stream, idx);
+            let msg = r.bytes(len);
+            one::<B>(rep, kp_dense, "generated", &msg, b"", b"", false);
+            if len <= 300 {
+                let f = r.bytes(len);
+                one::<B>(rep, kp_dense, "generated", b"m", &f, b"", false);
+                if B::HAS_AAD {
+                    one::<B>(rep, kp_dense, "generated", b"m", b"f", &f, false);
+                    one::<B>(rep, kp_dense, "generated", &msg, &f[..len / 2], &f[len / 2..], false);
+                }
+            }
+        }
+
         // --- randomness dimension: identical inputs sealed N times
         let n = if slow { opts.size(2000, 10000) } else { opts.size(20000, 200000) };
         let kp = &keys[1].1;
